@@ -54,8 +54,9 @@ func fieldByName(o Object, fpath []string) (i interface{}, ok bool) {
 	v := reflect.ValueOf(o)
 
 	v, ok = valueFieldByName(v, fpath)
-	if !ok {
-		return nil, ok
+	// the value of an unexported field cannot be taken
+	if !ok || !v.CanInterface() {
+		return nil, false
 	}
 
 	return v.Interface(), ok
